@@ -24,6 +24,9 @@ class Ctx:
     def func(self, q):
         return self.prog.func(q)
 
+    def cls(self, q):
+        return self.prog.cls(q)
+
     def cfg(self, q, policy=None, key='default'):
         f = self.prog.func(q) if isinstance(q, str) else q
         k = (f.qualname, key)
